@@ -1,0 +1,40 @@
+//go:build verif
+
+package internal
+
+// Contracts for the strict connect codecs (C18): the marshal side of each codec must
+// produce the wire format that its own Unmarshal reads, and StrictProtoCodec.Unmarshal
+// must fail when the decoded message retains unknown fields.
+//
+// wireFmt[slicebase(b)] is a ghost tag set by the (assumed) contracts of proto.Marshal*
+// (1 = protobuf binary) and protojson.Marshal* (2 = JSON); lastUnmarshalFmt[0] records
+// which format the last library unmarshal call parsed.
+
+//@ func (StrictProtoCodec).MarshalAppend
+//@   modifies wireFmt, []byte
+//@   ensures @binary result_1 == nil ==> wireFmt[slicebase(result_0)] == 1
+
+//@ func (StrictProtoCodec).Marshal
+//@   modifies wireFmt, []byte
+//@   ensures @binary result_1 == nil ==> wireFmt[slicebase(result_0)] == 1
+
+//@ func (StrictProtoCodec).MarshalStable
+//@   modifies wireFmt, []byte
+//@   ensures @binary result_1 == nil ==> wireFmt[slicebase(result_0)] == 1
+
+//@ func (StrictProtoCodec).Unmarshal
+//@   modifies lastUnmarshalFmt
+//@   ensures @binary result == nil ==> lastUnmarshalFmt[0] == 1
+//@   ensures @strict result == nil ==> pbUnknownLen[reflOf(unbox(msg, proto.Message))] == 0
+
+//@ func (StrictJSONCodec).MarshalAppend
+//@   modifies wireFmt, []byte
+//@   ensures @json result_1 == nil ==> wireFmt[slicebase(result_0)] == 2
+
+//@ func (StrictJSONCodec).Marshal
+//@   modifies wireFmt, []byte
+//@   ensures @json result_1 == nil ==> wireFmt[slicebase(result_0)] == 2
+
+//@ func (StrictJSONCodec).Unmarshal
+//@   modifies lastUnmarshalFmt
+//@   ensures @json result == nil ==> lastUnmarshalFmt[0] == 2
